@@ -391,6 +391,18 @@ def _judge(want, have, closure=(), depth=0, conds=None, wconds=None):
                     return 'undecided', 'the same callee is called with another number of arguments (`%s` / `%s`): its signature or defaults may have changed with it' % (t2[:80], t1[:80])
             except (SyntaxError, AttributeError):
                 pass
+        if t1 != t2 and getattr(closure, 'p', None) is not None:
+            # <Class>.<NAME> bound once to a literal in the class body is that literal (inside comprehensions the summaries keep the name)
+            def spell(t):
+                def f(m):
+                    cs = [c for c in closure.p.classes.values() if c.name == m.group(1)]
+                    if len(cs) == 1 and m.group(2) in cs[0].consts and isinstance(cs[0].consts[m.group(2)], ast.Constant) \
+                            and isinstance(cs[0].consts[m.group(2)].value, (int, str)) and not isinstance(cs[0].consts[m.group(2)].value, bool):
+                        return repr(cs[0].consts[m.group(2)].value)
+                    return m.group(0)
+                return _re.sub(r'(?<![\w.\'\"])(?:\w+\.)?([A-Z]\w*)\.([A-Za-z_]\w*)\b(?!\()', f, t)
+            if spell(t1) == spell(t2):
+                continue
         if t1 != t2:
             if _re.search(r'obj\d+', t1 + t2) or 'loop ' in t1:
                 return 'undecided', 'same visible steps; an operand built from local objects is spelled differently (%s)' % t2[:120]
